@@ -638,7 +638,13 @@ CHECKS["C18"].update({
              "re-extracted from the annotations of ast.py + parser probes) and the closed form all_covered_children_visited. Sibling order (W5) as "
              "theorems: list_members_in_order, siblings_in_statement_order (every table), sibling_order_inversions_today (statement order contradicts "
              "slot = source order for exactly four (kind, first, second) triples: default_value before type, type before arguments, operation types "
-             "before directives x2) and siblings_in_source_order_today (all other sibling pairs of all kinds are visited in source order). "
+             "before directives x2) and siblings_in_source_order_today (all other sibling pairs of all kinds are visited in source order); "
+             "visited_reached / reached_covered / visited_iff_covered_today (EXACTLY the covered nodes are entered and left). The success premise "
+             "`visit = .ok` of all these theorems is discharged by a decidable shape check read off the generated table (VisitShape.lean): WellShaped, "
+             "wellShaped_visit_ok (every observer, every state, fuel t.depth), witnesses_well_shaped, evaluated by the driver on every document of "
+             "every run. balanced_strict (an unmatched enter is tied to a deletion / skip of that node in the state reached; a kept or replaced node "
+             "IS left). Chain statements for the loop the code has (chained vs true, flag chainPersonalSkip): chained_order_current (enter in order "
+             "AND leave in reverse), chained_observer_current, chain_discards_delete/replace_current, chain_not_faithful_current. "
              "Full coverage is REFUTED (full_coverage_false, gaps_executable, "
              "gaps_type_system, order_violated: W1-W5) and ChainedVisitor discards member deletions / replacements (chain_not_faithful, W6). Tied by trace "
              "(phase, node identity, kind, handler) and result-tree correspondence with scripted real visitors at every node position, Spec.editAt against the "
@@ -647,7 +653,10 @@ CHECKS["C18"].update({
              "C18_dynamic.py observes the table on one maximal instance per node class when a shape is not recognised - evidence key `extraction`); "
              "generators. The hand-written wrapper / map_and_filter / chain models are tied by the correspondence only. Hypothesis of the closed coverage / "
              "order theorems: the document is well-kinded w.r.t. the extracted child-kind table (checked on every document of every run: "
-             "`wellkinded:*`), and `__slots__` order = source order (checked against `loc` on the probe documents at extraction). Only exercised: in-place aliasing "
+             "`wellkinded:*`), and `__slots__` order = source order (checked against `loc` on the probe documents at extraction). PARTIAL: no Lean encoding "
+             "Ast.Document -> Visit.Node with encode_wellShaped; parser-produced documents are tied to WellShaped by the witnesses and by the driver "
+             "evaluating it on every document (`corr:shape:ill-shaped`). The theorems named chained_order / chained_observer / chained_skip / "
+             "chain_discards_* / chain_not_faithful concern the loop BEFORE fix W8 (said in their doc comments). Only exercised: in-place aliasing "
              "(child lists never edited in place, structurally equal siblings), DispatchingVisitor class histories, `visitors` reassigned after "
              "construction, ChainedVisitor subclasses as members, CPython recursion limit (known finding W9: RecursionError with enters without leaves on "
              "documents nested deeper than the interpreter stack). Known findings W1-W6 (pinned by the literal event lists of test_visitor.py or not a small "
@@ -674,7 +683,9 @@ CHECKS["C19"].update({
              "on the wrapped document. The loop of _nesting_levels is modelled AS WRITTEN (shape re-extracted: DepthFrontier.nestingLevelsF = the "
              "frontier of selection lists of today's tree; DepthMerged.nestingLevelsM = one list per level, proposed fix C19-H3) and proved equal to "
              "the recursive measure on acyclic documents: nestingLevelsFS_ok, frontier_eq_recursive, ruleF_eq_ruleB, flags_iff_final_frontier, "
-             "ruleF_never_raises (and the same five for the merged loop). Outside probe C19-1 (a directive that DECIDES next to one that cannot be "
+             "ruleF_never_raises (and the same five for the merged loop); for the CURRENT rule also name_filter_final / name_filter_frontier, "
+             "pipeline_rejects_iff_final (pipelineB), ruleB_eq_expected (Props/C19_current.lean) - the theorems about rule / ruleV / ruleR / ruleRT / "
+             "depthFixed are layers about intermediate patch states and say so in their doc comments. Outside probe C19-1 (a directive that DECIDES next to one that cannot be "
              "evaluated is ignored by today's hook: `q @skip(if: true) @include(if: $unknown) { … }` is measured): decisive_directive_kept_today (model = "
              "code), hunter_depth_zero; proposed fix C19-H4 modelled behind the re-extracted flag separateDirectives (skipSelectionT3, ruleF3 / ruleM3, "
              "Lemmas/DepthSeparate): skipT3_eq_T_of_bound, skipT3_skips_more, measuredF3_eq_depthK3, flags_iff_final_separate, "
